@@ -235,8 +235,11 @@ pub fn gen_c03(tier: &str, seed: u64) -> Vec<Vec<String>> {
         for t in 0..nthreads {
             let nl = r.range(3, if tier == "thorough" { 60 } else { 25 }) as usize;
             let recursive = r.chance(1, 3);
+            let long = r.chance(1, 3);
             let ls: Vec<String> = (0..nl).map(|i| {
-                let h = hex(&line_for(t, i, *r.pick(&[8usize, 12, 20, 35, 64, 130])));
+                // now and then a record far above every buffer size the crate keeps between records
+                let len = if long && r.chance(1, 12) { *r.pick(&[9_000usize, 20_000, 40_000]) } else { *r.pick(&[8usize, 12, 20, 35, 64, 130]) };
+                let h = hex(&line_for(t, i, len));
                 if recursive && i + 1 < nl && r.chance(1, 3) { format!("R{h}") } else { h }
             }).collect();
             c.push(format!("THREAD {t} {}", ls.join(" ")));
